@@ -4,6 +4,8 @@
 package free
 
 import (
+	"runtime"
+	"time"
 	"fmt"
 	"path/filepath"
 	"sort"
@@ -193,4 +195,14 @@ type Report struct {
 type Finding struct {
 	Clause string `json:"clause"`
 	Detail string `json:"detail"`
+}
+
+// Quiesce waits (up to half a second) until the goroutines a finished batch
+// left behind - a tree may probe tools in the background, and such probes may
+// outlive the requests - are gone, so that the next batch starts from a quiet
+// process and nothing of the old batch is attributed to the new one.
+func Quiesce(baseline int) {
+	for i := 0; i < 500 && runtime.NumGoroutine() > baseline; i++ {
+		time.Sleep(time.Millisecond)
+	}
 }
